@@ -671,14 +671,27 @@ def four_run_relation(sql, dialect, max_errors=3, max_nodes=None, api="parse", r
     runs = runs or {L: parse_run(sql, dialect, L, max_errors, max_nodes, api) for L in LEVELS}
     bad: list = []
     ig, wa, ra, im = (runs[L] for L in LEVELS)
-    if all(r["status"] == "TokenError" for r in runs.values()):
-        return bad, runs  # the tokenizer rejected the text before any parser ran: the same for every level
-    if any(r["status"] in ("TokenError", "RecursionError") for r in runs.values()):
-        kinds = {r["status"] for r in runs.values()}
-        if kinds & {"RecursionError"}:
-            return bad, runs  # resource limit, C05's business; nothing to compare
-        bad.append(("token-error-level-dependent", f"statuses {[r['status'] for r in runs.values()]}"))
-        return bad, runs
+    if any(r["status"] == "TokenError" for r in runs.values()):
+        # did the TOKENIZER reject the text before any parser ran (the same for every level, nothing to compare), or did a
+        # tokenizer started INSIDE the parse (the hint sub-parser re-tokenizes the comment) raise through the running parser?
+        try:
+            from sqlglot.dialects.dialect import Dialect
+            with watchdog():
+                Dialect.get_or_raise(dialect).tokenize(sql)
+            outer_ok = True
+        except Exception:  # noqa
+            outer_ok = False
+        if not outer_ok:
+            if not all(r["status"] == "TokenError" for r in runs.values()):
+                bad.append(("token-error-level-dependent", f"statuses {[r['status'] for r in runs.values()]}"))
+            return bad, runs
+        for r in (ig, wa):
+            if r["status"] == "TokenError":
+                bad.append(("lenient-raises-TokenError", f"{r['level']} raised TokenError: {str(r['exc'])[:120]}"))
+        if bad:
+            return bad, runs
+    if any(r["status"] == "RecursionError" for r in runs.values()):
+        return bad, runs  # resource limit / watchdog, C05's business; nothing to compare
     for r in (ig, wa):
         if r["status"] != "returned":
             kind = "lenient-raises-ParseError" if r["status"] == "ParseError" else "lenient-" + r["status"]
@@ -962,7 +975,7 @@ def g_statement(rng):
     return rng.choice(opts)()
 
 
-TOK_RE = re.compile(r"'[^']*'|[A-Za-z_@][A-Za-z_0-9]*|\d+(?:\.\d+)?|::|->>|->|<>|>=|<=|\|\||<<|/\*\+|\*/|[^\sA-Za-z_0-9]")
+TOK_RE = re.compile(r"'[^']*'|\"[^\"]*\"|`[^`]*`|[A-Za-z_@][A-Za-z_0-9]*|\d+(?:\.\d+)?|::|->>|->|<>|>=|<=|\|\||<<|/\*\+|\*/|[^\sA-Za-z_0-9]")
 
 
 def toks(sql):
@@ -1325,6 +1338,8 @@ def abstract(sql):
     for t in toks(sql):
         if t.startswith("'"):
             out.append("lit")
+        elif t[:1] in ('"', "`"):
+            out.append("qid")
         elif re.fullmatch(r"\d+(\.\d+)?", t):
             out.append("n")
         elif re.fullmatch(r"[A-Za-z_@][A-Za-z_0-9]*", t) and t.upper() != t:
@@ -1366,7 +1381,7 @@ _SEEN_KEYS: set = set()
 
 def report_parse(chk, sql, d, mx, mn, bad):
     kind = bad[0][0]
-    msg_keyed = kind == "lenient-raises-ParseError" or kind.startswith("lenient-internal")
+    msg_keyed = kind.startswith("lenient-raises-") or kind.startswith("lenient-internal")
     if msg_keyed:
         # a ParseError / internal exception escaping a lenient run: identified by the raise site's message
         key0 = f"parse:{kind}:msg={abstract_msg(bad[0][1].split(': ', 1)[-1])}"
